@@ -396,7 +396,8 @@ func (c *Ctx) Returns(fnSpec string, idx int, pattern, desc, role string) {
 	}
 	r := fmt.Sprintf("ret%d%s", idx, role)
 	n := 0
-	var found []string
+	var found, bad []string
+	var badPos string
 	for _, b := range f.Fn.Blocks {
 		ret, ok := b.Instrs[len(b.Instrs)-1].(*ssa.Return)
 		if !ok {
@@ -404,6 +405,9 @@ func (c *Ctx) Returns(fnSpec string, idx int, pattern, desc, role string) {
 		}
 		k := f.ExitKindOf(b)
 		if k != ir.SuccessExit && k != ir.MaybeExit {
+			continue
+		}
+		if b == f.Fn.Recover {
 			continue
 		}
 		if idx >= len(ret.Results) {
@@ -414,9 +418,16 @@ func (c *Ctx) Returns(fnSpec string, idx int, pattern, desc, role string) {
 		n++
 		found = append(found, t.String())
 		if !ir.MatchAny(pattern, t) {
-			c.add("A", fnSpec, r, desc, report.Violated, fmt.Sprintf("result %d is %s, want %s", idx, short(t.String()), pattern), c.posOf(ret))
-			return
+			bad = append(bad, short(t.String()))
+			if badPos == "" {
+				badPos = c.posOf(ret)
+			}
 		}
+	}
+	if len(bad) > 0 {
+		// all offending returns are listed so that a known finding can name exactly the ones it covers
+		c.add("A", fnSpec, r, desc, report.Violated, fmt.Sprintf("result %d is {%s}, want %s", idx, strings.Join(bad, " ;; "), pattern), badPos)
+		return
 	}
 	if n == 0 {
 		c.add("A", fnSpec, r, desc, report.Violated, "no success exit", c.fnPos(f))
